@@ -7,6 +7,7 @@ import time
 from . import common
 from . import p_c10
 from . import sched_model as M
+from . import sched_targets as TG
 from .sched_common import run
 
 PID = "C11"
@@ -112,6 +113,15 @@ def correspondence(ctx):
                 checks.append(f"let r := revert_optional {gb} in graph_eqb (fst r) {ga} && queue_eqb (snd r) {q}")
                 descr.append(("revert", hi, ei))
                 ctx.case(("revert", repr(before)), bool(ev["to_be_deleted"]))
+            elif ev["op"] == "reconcile" and before is not None and "rejected" not in ev:
+                # Workflow.reconcile_targets after Scheduler.initialize rebuilt the target tables: the translated
+                # model (GenSched.reconcile_parts) against the real tables, and the hypotheses of
+                # C11_target_change_keeps_flag_invariant on the real snapshot
+                gb, ga = M.to_coq(before), M.to_coq(after)
+                checks.append(f"let gb := {gb} in graph_eqb (reconcile gb) {ga} && fwf_b gb && labels_unique_b gb && outinv_b gb")
+                descr.append(("reconcile", hi, ei))
+                ctx.count("reconcile_cases")
+                ctx.case(("reconcile", repr(before)), bool(before["targets"] or before["target_dirs"]))
             elif ev["op"] == "tick" and ev.get("after_meta") is not None and hi % 3 == 0:
                 nontriv = bool(before["targets"] or before["target_dirs"]
                                or any(s["need"] == M.OPTIONAL for s in before["steps"]))
@@ -239,6 +249,14 @@ def oracle(ctx):
     M.run_multi_consumer_family(M.MULTI_VARIANTS, fail,
                                 lambda v, obs: ctx.case(("multi-consumer", v[0]), True))
     ctx.count("multi_consumer_cases", len(M.MULTI_VARIANTS))
+    # directed family: a run that resumes an unchanged plan with other targets (reconcile_targets alone must flag)
+    TG.run_target_resume_family(TG.VARIANTS, fail, lambda v, obs: ctx.case(("target-resume", v[0]), True))
+    ctx.count("target_resume_cases", len(TG.VARIANTS))
+    if ctx.thorough():
+        trng = __import__("random").Random(f"C11-target-resume-{ctx.seed}")
+        rv = [TG.random_variant(trng) for _ in range(150)]
+        TG.run_target_resume_family(rv, fail, lambda v, obs: ctx.case(("target-resume", repr(v)), True))
+        ctx.count("target_resume_cases", len(rv))
     if ctx.thorough():
         for sig, detail, wit in three_build_history():
             fail(sig, "three-build-history", detail, wit)
@@ -337,6 +355,8 @@ def search(ctx):
     found = []
     rng = random.Random(f"C11-search-{ctx.seed}")
     M.run_multi_consumer_family([M.random_multi_variant(rng) for _ in range(60)],
+                                lambda sig, name, detail, wit: found.append((sig, name, detail, wit)))
+    TG.run_target_resume_family([TG.random_variant(rng) for _ in range(80)],
                                 lambda sig, name, detail, wit: found.append((sig, name, detail, wit)))
     for sig, detail, wit in three_build_history():
         found.append((sig, "three-build-history", detail, wit))
